@@ -228,6 +228,11 @@ impl Interp {
                 let (Some(Obj::World(w)), Some(j)) = (self.objs.get(*name), unhex(junk)) else { return "bad-op".into() };
                 w.fault(kind, &j)
             }
+            ["e2e.resolver", name, ..] => {
+                let Some(Obj::World(w)) = self.objs.get(*name) else { return "bad-op".into() };
+                let Some(n) = kv(t, "n").and_then(|x| x.parse().ok()) else { return "bad-op".into() };
+                w.resolver_stall(n, kv(t, "via") == Some("udp"))
+            }
             ["e2e.cut", name] => {
                 let Some(Obj::World(w)) = self.objs.get(*name) else { return "bad-op".into() };
                 w.cut()
